@@ -14,6 +14,8 @@ RULE = ("Generated: (mode in {explicit psi, explicit rho, model complex, model p
         "deterministic non-real operand; 'default_dict' checks the default dictionary itself. Oracle: dense Kronecker product U "
         "(site 0 leftmost), U psi, U rho U^dagger, their entries / diagonal at my own big-endian indices. Non-trivial = basis "
         "contains Y or a non-real user unitary AND has >= 2 distinct letters AND the operand has non-real entries.")
+RULE_EXT = ("Extended as built: user unitaries from the angle family {0, +-pi, pi/2, 2pi, +-7, drawn}, given as tensors, nested lists or ndarrays (double precision kept); operand reuse sequences (same operand rotated in a second basis, Z-only first), transposed-view (non-contiguous) operands, index batches of 257-400 entries, explicit unitaries= equal to the state's own dictionary.")
+RULE = RULE + " " + RULE_EXT
 ASSUMPTIONS = ["explicit rho arguments are Hermitian (the property speaks of density matrices)",
                "Z is never overridden in a user dictionary (the library's fast path defines the reference basis by the letter Z)",
                "tolerance 1e-10*max|operand| for explicit operands, 1e-7 relative to max|ref| for model-derived ones (softplus threshold)"]
